@@ -145,7 +145,9 @@ def matrix_stream(seed):
             contexts = [('top', tgt, v), ('elem', {'seq': ['list', tgt]}, [v]), ('dictval', {'map': ['dict', ['str', tgt]]}, {'k': v}),
                         ('slot', {'tuple': ['int', tgt]}, [0, v]), ('union', {'union': [tgt, {'tuple': ['NoneType', 'NoneType', 'NoneType']}]}, v)
                         if tgt != 'any' else ('top', tgt, v),
-                        ('structfield', {'struct': [['f', tgt]]}, {'f': v})]
+                        ('structfield', {'struct': [['f', tgt]]}, {'f': v}),
+                        # a mapping whose KEY type is undeclared but whose values are typed, and the other way round
+                        ('anykeyval', {'map': ['dict', ['any', tgt]]}, {'k': v}), ('anykeyval2', {'map': ['Mapping', ['any', tgt]]}, {1: v})]
             if hashable_tgt:
                 try:
                     hash(v)
@@ -327,7 +329,9 @@ def valid_stream(seed, n, op):
 PLUGS = {
     'C01': dict(streams=lambda seed, tier: conv_stream(seed, sizes(tier, 1500, 30000), 'from_data', []) +
                 conv_stream(seed + 1, sizes(tier, 300, 3000), 'build', []) + twin_stream(seed, sizes(tier, 150, 2000)) +
-                gen.scenarios_tuplelayout(seed, sizes(tier, 300, 4000)),
+                gen.scenarios_tuplelayout(seed, sizes(tier, 300, 4000)) +
+                with_oracles(gen.scenarios_tagged(seed + 4, sizes(tier, 400, 6000)), [], op='from_data') +
+                gen.scenarios_unsupported(seed, sizes(tier, 200, 2000)),
                 project=proj_verdict_value, oracles=[], disagreement_is_failure=True),
     'C02': dict(streams=lambda seed, tier: matrix_stream(seed) + conv_stream(seed, sizes(tier, 500, 10000), 'from_data', []) +
                 gen.scenarios_tuplelayout(seed + 2, sizes(tier, 500, 8000)),
@@ -335,17 +339,20 @@ PLUGS = {
     'C03': dict(streams=lambda seed, tier: conv_stream(seed, sizes(tier, 1500, 30000), 'try_collect', ['c03']) +
                 with_oracles(gen.scenarios_cond(seed, sizes(tier, 700, 10000)), ['c03'], op='try_collect') +
                 with_oracles(gen.scenarios_shapes(seed, sizes(tier, 500, 8000), op='try_collect'), ['c03']) +
-                with_oracles(gen.scenarios_tuplelayout(seed, sizes(tier, 500, 8000), op='try_collect'), ['c03']),
+                with_oracles(gen.scenarios_tuplelayout(seed, sizes(tier, 500, 8000), op='try_collect'), ['c03']) +
+                with_oracles(gen.scenarios_tagged(seed + 4, sizes(tier, 500, 8000)), ['c03'], op='try_collect'),
                 project=proj_try_collect, oracles=['c03'], disagreement_is_failure=False),
     'C04': dict(streams=lambda seed, tier: conv_stream(seed, sizes(tier, 1500, 30000), 'from_data', ['c04']) +
                 [dict(s, oracles=['c04']) for s in matrix_stream(seed)] +
                 with_oracles(gen.scenarios_tuplelayout(seed, sizes(tier, 500, 8000)), ['c04']) +
                 with_oracles(gen.scenarios_shapes(seed, sizes(tier, 400, 6000), op='from_data'), ['c04']) +
                 with_oracles(gen.scenarios_cond(seed, sizes(tier, 500, 8000)), ['c04']) +
-                with_oracles(gen.scenarios_tagged(seed, sizes(tier, 400, 6000)), ['c04']),
+                with_oracles(gen.scenarios_tagged(seed, sizes(tier, 600, 8000)), ['c04'], op='from_data') +
+                with_oracles(gen.scenarios_unsupported(seed, sizes(tier, 300, 3000)), ['c04']),
                 project=proj_verdict_value, oracles=['c04'], disagreement_is_failure=False),
     'C05': dict(streams=lambda seed, tier: valid_stream(seed, sizes(tier, 2000, 30000), 'roundtrip') +
-                [dict(s, op='roundtrip') for s in gen.scenarios_tuplelayout(seed, sizes(tier, 400, 6000))],
+                [dict(s, op='roundtrip') for s in gen.scenarios_tuplelayout(seed, sizes(tier, 400, 6000))] +
+                [dict(s, op='roundtrip') for s in gen.scenarios_tagged(seed + 4, sizes(tier, 500, 8000))],
                 project=proj_full, oracles=[], disagreement_is_failure=True, post_oracle=rt_oracle),
     'C06': dict(streams=lambda seed, tier: valid_stream(seed, sizes(tier, 2000, 30000), 'convert2') +
                 [dict(s, op='convert2') for s in gen.scenarios_tuplelayout(seed, sizes(tier, 500, 8000))] +
@@ -362,7 +369,7 @@ PLUGS = {
                 conv_stream(seed + 1, sizes(tier, 400, 10000), 'try_collect', []) +
                 conv_stream(seed + 2, sizes(tier, 400, 10000), 'roundtrip', []) +
                 gen.scenarios_tagged(seed, sizes(tier, 600, 8000)) + gen.scenarios_shapes(seed, sizes(tier, 300, 4000), op='from_data') +
-                gen.scenarios_construct(seed, sizes(tier, 300, 4000)) +
+                gen.scenarios_construct(seed, sizes(tier, 300, 4000)) + gen.scenarios_touch(seed, sizes(tier, 400, 5000)) +
                 with_defaultdicts(gen.scenarios_tagged(seed + 3, sizes(tier, 400, 5000)) + gen.scenarios_shapes(seed + 3, sizes(tier, 500, 6000), op='from_data') +
                                   gen.scenarios_conv(seed + 3, sizes(tier, 800, 10000)), seed),
                 project=proj_verdict_value, oracles=['c09'], disagreement_is_failure=False),
@@ -370,12 +377,13 @@ PLUGS = {
                 twin_stream(seed, sizes(tier, 150, 2000)),
                 project=proj_full, oracles=['c10'], disagreement_is_failure=True),
     'C11': dict(streams=lambda seed, tier: union_stream(seed, sizes(tier, 1200, 20000)) + twin_stream(seed, sizes(tier, 100, 1500)) +
-                union_stream(seed + 7, sizes(tier, 300, 5000), op='roundtrip'),
+                union_stream(seed + 7, sizes(tier, 300, 5000), op='roundtrip') +
+                [sc for sc in gen.scenarios_tagged(seed + 4, sizes(tier, 1200, 15000)) if 'union' in sc['ty']],
                 project=proj_verdict_value, oracles=['c11'], disagreement_is_failure=True),
     'C12': dict(streams=lambda seed, tier: gen.scenarios_tagged(seed, sizes(tier, 1500, 25000)),
                 project=proj_full, oracles=[], disagreement_is_failure=True),
-    'C13': dict(streams=lambda seed, tier: gen.scenarios_cond(seed, sizes(tier, 2000, 30000)),
-                project=proj_full, oracles=[], disagreement_is_failure=True),
+    'C13': dict(streams=lambda seed, tier: gen.scenarios_cond(seed, sizes(tier, 2000, 30000)) + gen.scenarios_cond_twins(seed, sizes(tier, 600, 8000)),
+                project=proj_full, oracles=['c13'], disagreement_is_failure=True),
     'C14': dict(streams=lambda seed, tier: with_oracles(gen.scenarios_construct(seed, sizes(tier, 1500, 25000)), ['c14']),
                 project=proj_full, oracles=['c14'], disagreement_is_failure=True),
     'C15': dict(streams=lambda seed, tier: gen.scenarios_process(seed, sizes(tier, 800, 12000), generic_share=0.0) +
@@ -384,13 +392,14 @@ PLUGS = {
                 gen.scenarios_tuplelayout(seed, sizes(tier, 600, 9000)) + gen.scenarios_shapes(seed, sizes(tier, 400, 6000), op='from_data'),
                 project=proj_full, oracles=[], disagreement_is_failure=True),
     'C16': dict(streams=lambda seed, tier: gen.scenarios_valuesem(seed, sizes(tier, 2000, 30000)) + gen.scenarios_hashtable(seed) +
+                gen.scenarios_hashmut(seed, sizes(tier, 60, 600)) +
                 gen.scenarios_process(seed, sizes(tier, 300, 4000), generic_share=0.2),
                 project=proj_full, oracles=['c16'], disagreement_is_failure=True, exhaustive_part='hashcube'),
     'C17': dict(streams=lambda seed, tier: gen.scenarios_process(seed, sizes(tier, 1500, 25000), generic_share=0.7),
                 project=proj_full, oracles=[], disagreement_is_failure=True),
-    'C18': dict(streams=lambda seed, tier: gen.scenarios_handlers(seed, sizes(tier, 2500, 30000)) +
+    'C18': dict(streams=lambda seed, tier: gen.scenarios_handlers(seed, sizes(tier, 2500, 30000)) + gen.scenarios_reach(seed, sizes(tier, 500, 6000)) +
                 [s for s in gen.scenarios_process(seed, sizes(tier, 600, 6000), generic_share=0.0) if 'custom' in json.dumps(s['decls'])],
-                project=proj_full, oracles=[], disagreement_is_failure=True),
+                project=proj_full, oracles=['c18'], disagreement_is_failure=True),
     'C19': dict(streams=lambda seed, tier: gen.scenarios_io(seed, sizes(tier, 2500, 30000)),
                 project=proj_full, oracles=[], disagreement_is_failure=True, post_oracle=lambda sc, iout, mout: io_oracle(sc, iout, mout)),
     'C20': dict(streams=lambda seed, tier: rename_stream(seed, tier), project=proj_full, oracles=[], disagreement_is_failure=True,
@@ -434,7 +443,7 @@ def judge(pid, plug, res, failing, disagreements, hist, oracle_hits):
         for name, verdict in orc.items():
             if verdict is None:
                 continue
-            if name in plug['oracles'] or name == 'post' or (name == 'c09' and pid == 'C09'):
+            if name in plug['oracles'] or name in ('post', 'rep') or (name == 'c09' and pid == 'C09'):
                 oracle_hits[name] += 1
                 failing.append({'kind': 'property-observed-failing', 'oracle': name, 'detail': verdict, 'scenario': slim(sc),
                                 'impl': iout})
